@@ -354,6 +354,8 @@ pub mod stats;
 pub mod storage;
 mod test_hooks;
 pub mod utils;
+#[cfg(feoxdb_verif)]
+pub mod verif;
 
 pub use bytes::Bytes;
 pub use core::store::{
